@@ -5,7 +5,7 @@ from mc import core, det, vnet, fe, sse
 PROPERTY = 'C09'
 ENGINE = 'E3 real client Service + real server + real websockets on the virtual network; exhaustive enumeration of client-reload / server-restart placements over the workflow'
 LEVEL = 'model_checking'
-DIRECTED_ADDITIONS = 'the workflow spread over two real interpreters with different hash seeds (server restart / CLI as they really happen), two interleaved services (incl. a 14-posting keyword and concurrent searches), patterned keys, 27 cleanup-timer variants, early client object, single-keyword databases, the CLI itself (JSON files, names, name collisions, fresh process per command and one long-lived process), a result above 1 MiB, composed/decomposed Unicode keywords, awkward sid characters, loopback-TCP replays'      # members added during the seeded-change campaign (DESIGN 7); counted under their own vacuity counters
+DIRECTED_ADDITIONS = 'a refused create of another scheme on the same client object first, the workflow spread over two real interpreters with different hash seeds (server restart / CLI as they really happen), two interleaved services (incl. a 14-posting keyword and concurrent searches), patterned keys, 27 cleanup-timer variants, early client object, single-keyword databases, the CLI itself (JSON files, names, name collisions, fresh process per command and one long-lived process), a result above 1 MiB, composed/decomposed Unicode keywords, awkward sid characters, loopback-TCP replays'      # members added during the seeded-change campaign (DESIGN 7); counted under their own vacuity counters
 
 STEPS = ['create', 'genkey', 'encrypt', 'upload-config', 'upload-index', 'search1', 'search2']
 CHUNK = 16
@@ -126,6 +126,7 @@ def units(tier, seed):
         us.append(('large/%s' % name, {'large': name}))
     for name in sse.SCHEMES:
         us.append(('timing/%s' % name, {'timing': name}))
+        us.append(('refused-create-first/%s' % name, {'refusedfirst': name}))
         us.append(('processes/%s' % name, {'processes': name, 'splits': [1, 2, 3, 4, 5, 6]}))
     # conformance of the transport model: workflows replayed over real loopback TCP with the real client (mc/loopback.py)
     if tier == 'quick':
@@ -137,7 +138,7 @@ def units(tier, seed):
     return sorted(us, key=lambda u: not u[0].startswith('tcp'))
 
 
-def run_case(r, seed, name, dbi, bits, restart, keypattern=None, timing=None, early_object_at=None, cfg_over=None, steps=None, sid=None):
+def run_case(r, seed, name, dbi, bits, restart, keypattern=None, timing=None, early_object_at=None, cfg_over=None, steps=None, sid=None, prelude=None):
     from toolkit.database_utils import convert_database_keyword_to_bytes
     from toolkit.bytes_utils import BytesConverter
     case = {'scheme': name, 'db': dbi, 'reload_before_step': bits, 'server_restart_before_step': restart}
@@ -150,6 +151,18 @@ def run_case(r, seed, name, dbi, bits, restart, keypattern=None, timing=None, ea
     if early_object_at is not None:
         case['early_client_object_loaded_before_step'] = early_object_at
         r.count('early-object-variants')
+    bad = None
+    if prelude:
+        # before the create, the SAME client object is offered a configuration of another scheme that cannot be instantiated
+        case['refused_create_first'] = prelude
+        bad = wf_cfg(prelude)
+        bad['param_lambda' if 'param_lambda' in bad else 'param_k_prime' if 'param_k_prime' in bad else 'param_k'] = 17
+        try:
+            sse.loader(prelude).SSEScheme(copy.deepcopy(bad))
+            r.count('prelude-configuration-instantiable (skipped)')
+            return None
+        except Exception:
+            r.count('refused-create-first')
     core.note_case(case)
     if steps:
         # one phase (steps[0] <= i < steps[1]) of a workflow that is spread over several interpreters (run_processes)
@@ -208,7 +221,9 @@ def run_case(r, seed, name, dbi, bits, restart, keypattern=None, timing=None, ea
                     cl.ensure(reload=bool(bits[i - 1]))
             r['transitions'] += 1
             if step == 'create':
-                cl.create(copy.deepcopy(cfg))
+                cl.create(copy.deepcopy(cfg), prelude=copy.deepcopy(bad))
+                if bad is not None and cl.prelude_outcome == 'accepted':
+                    r.v(PROPERTY, name, 'uninstantiable-configuration-accepted', 'create', case, 'refused', 'accepted')
             elif step == 'genkey':
                 if keypattern:          # key material with awkward byte values (leading/trailing whitespace, NUL, ...)
                     det.pattern_urandom(keypattern, seed, name)
@@ -560,6 +575,13 @@ def run_unit(p, tier, seed):
                 run_case(r, seed, p['timing'], 1, [keep] * 6, None, early_object_at=at)
         det.restore()
         return r
+    if 'refusedfirst' in p:
+        i = sse.SCHEMES.index(p['refusedfirst'])
+        for other in (sse.SCHEMES[(i + 1) % len(sse.SCHEMES)], sse.SCHEMES[i - 1], sse.SCHEMES[(i + 4) % len(sse.SCHEMES)]):
+            for bits in ([0] * 6, [0, 0, 1, 0, 1, 0]):
+                run_case(r, seed, p['refusedfirst'], 1, bits, None, prelude=other)
+        det.restore()
+        return r
     if 'processes' in p:
         for split in p['splits']:
             run_processes(r, seed, p['processes'], split % 2, split)
@@ -602,5 +624,5 @@ def replay(case, seed):
         run_cli(r, seed, case['scheme'], case['db'], same_process=bool(case.get('same_process')))
         return r['violations']
     run_case(r, seed, case['scheme'], case['db'], case['reload_before_step'], case['server_restart_before_step'], keypattern=case.get('keypattern'), cfg_over=case.get('cfg_over'),
-             timing=case.get('cleanup_timers_fired_after_step'), early_object_at=case.get('early_client_object_loaded_before_step'))
+             timing=case.get('cleanup_timers_fired_after_step'), early_object_at=case.get('early_client_object_loaded_before_step'), prelude=case.get('refused_create_first'))
     return r['violations']
